@@ -141,7 +141,7 @@ const char *g_probe_name[PR__N] = {
     "dist_threads_max","km_rounds","merges","dp_steps","km_nodes",
     "fs_reads","fs_short_reads","fs_read_faults","fs_open_faults","fs_stat_faults","fs_writes","fs_write_faults",
     "clock_reads","allocs","alloc_fails","junk_bytes",
-    "unusual_branches_taken","c10_nodes_checked_in_output"
+    "sb_stores_buffered","sb_stale_reads","unusual_branches_taken","c10_nodes_checked_in_output"
 };
 
 #define STACK_SIZE ((size_t)64 << 20)
@@ -315,6 +315,10 @@ static bool fiber_can_run(Fiber *f)
 }
 
 static int g_at_preempt;     /* inside an access-level preemption (for the stall decision below) */
+/* store-buffer model for atomics (tsanhooks.c, preempt build only) */
+extern void tsan_sb_sync(void) __attribute__((weak));
+extern void tsan_sb_on_switch(void) __attribute__((weak));
+#define SB_SYNC() do { if (tsan_sb_sync) tsan_sb_sync(); } while (0)
 
 static void schedule(uint32_t p16)
 {
@@ -345,6 +349,7 @@ static void schedule(uint32_t p16)
             if (k) { g_cur->stall_until = g_steps + 4ull * k; g_probe[PR_STALLS]++; }
         }
         hooks_on_switch();
+        if (tsan_sb_on_switch) tsan_sb_on_switch();
         switch_to(next);
     }
 }
@@ -366,6 +371,7 @@ static Task *task_new(Team *tm, Task *parent, int explicit_)
 
 static void task_complete(Task *t)
 {
+    SB_SYNC();                    /* task completion implies a flush */
     t->state = T_DONE;
     if (t->parent) t->parent->unfinished_children--;
     if (t->tg) t->tg->unfinished--;
@@ -400,6 +406,7 @@ static void *copy_args(Task *t, void *data, void (*cpyfn)(void *, void *), long 
 static void spawn_task(void (*fn)(void *), void *data, void (*cpyfn)(void *, void *), long arg_size, long arg_align,
                        bool if_clause, unsigned flags, const long *range)
 {
+    SB_SYNC();                    /* task creation is a task scheduling point: implied flush */
     Ctx *cx = g_cur->ctx;
     Team *tm = cx->team;
     Task *parent = cx->cur;
@@ -445,6 +452,7 @@ void GOMP_task(void (*fn)(void *), void *data, void (*cpyfn)(void *, void *), lo
 
 void GOMP_taskwait(void)
 {
+    SB_SYNC();
     Task *t = cur_task();
     if (!t->team) return;
     while (t->unfinished_children > 0) {
@@ -468,6 +476,7 @@ void GOMP_taskgroup_start(void)
 
 void GOMP_taskgroup_end(void)
 {
+    SB_SYNC();
     Task *t = cur_task();
     TaskGroup *g = t->cur_tg;
     if (!g) return;
@@ -617,6 +626,7 @@ void GOMP_taskloop(void (*fn)(void *), void *data, void (*cpyfn)(void *, void *)
 
 static void end_barrier(Team *tm)
 {
+    SB_SYNC();
     tm->arrived++;
     for (;;) {
         g_cur->state = F_ENDBARRIER; g_cur->wait_team = tm;
@@ -657,6 +667,7 @@ static void fiber_trampoline(unsigned lo, unsigned hi)
 void GOMP_parallel(void (*fn)(void *), void *data, unsigned num_threads, unsigned flags)
 {
     (void)flags;
+    SB_SYNC();
     Ctx *up = g_cur->ctx;
     Task *enc = up->cur;
     unsigned n = num_threads ? num_threads : (unsigned)enc->nthreads_var;
@@ -749,6 +760,7 @@ void GOMP_single_copy_end(void *data)
 
 void GOMP_barrier(void)
 {
+    SB_SYNC();
     Ctx *cx = g_cur->ctx; Team *tm = cx->team;
     if (!tm || tm->n == 1) {
         /* a barrier is a task scheduling point: with one thread run what is queued */
@@ -781,11 +793,13 @@ static int g_crit_lock, g_atomic_lock;
 
 static void lock_acquire(int *l)
 {
+    SB_SYNC();                    /* lock operations imply a flush */
     while (*l) { g_cur->state = F_LOCK; g_cur->wait_lock = l; schedule(0x10000u); g_cur->state = F_RUN; }
     *l = 1;
     if (g_nfib > 1) schedule(W.p_switch);
 }
-static void lock_release(int *l) { *l = 0; if (g_nfib > 1) schedule(W.p_switch); }
+static void lock_release(int *l) {
+    SB_SYNC(); *l = 0; if (g_nfib > 1) schedule(W.p_switch); }
 
 void GOMP_critical_start(void) { lock_acquire(&g_crit_lock); }
 void GOMP_critical_end(void) { lock_release(&g_crit_lock); }
@@ -1009,6 +1023,16 @@ void simomp_preempt_soon(void)
     if (W.explicit_decisions || !W.p_burst || g_nfib < 2) return;
     if (!sim_rng_chance(&g_srng, W.p_burst)) return;
     uint64_t at = g_accesses + 1 + sim_rng_below(&g_srng, W.burst_len ? W.burst_len : 64);
+    if (at < g_next_preempt) g_next_preempt = at;
+}
+
+/* a store has just been parked in a store buffer: the interesting schedules are the ones that let another virtual
+   thread run before it drains, so place a preemption within the next few accesses (half of the time) */
+void simomp_preempt_after_buffered_store(void)
+{
+    if (W.explicit_decisions || g_nfib < 2) return;
+    if (!sim_rng_chance(&g_srng, 0x8000u)) return;
+    uint64_t at = g_accesses + 1 + sim_rng_below(&g_srng, 4);
     if (at < g_next_preempt) g_next_preempt = at;
 }
 
